@@ -3,7 +3,7 @@
 use crate::engine::report::{Part, Report, Tier};
 use crate::engine::tape::{self, Cfg, Outcome, MENU4, MENU8};
 use crate::engine::util::fnv;
-use crate::subject::templates::{all_specs, AnySpec, EvKind, Flags, RunOutcome};
+use crate::subject::templates::{all_specs, large_specs, AnySpec, EvKind, Flags, RngKind, RunOpts, RunOutcome};
 use rayon::prelude::*;
 use serde_json::{json, Value};
 use std::collections::HashSet;
@@ -145,11 +145,60 @@ pub fn sweep(rep: &mut Report, flags: Flags, part_name: &str, filter: &dyn Fn(&s
     rep.push(part);
 }
 
+/// Ramps along the size axis: every template on one instance far beyond the exhaustive bounds, for a long
+/// run, under the generic step observer; default generator streams of a few seeds (no deviations), with
+/// the sequential and (C05/C06) the parallel evaluator.
+pub fn large(rep: &mut Report, flags: Flags, part_name: &str) {
+    let thorough = rep.tier == Tier::Thorough;
+    let iters: u32 = if thorough { 400 } else { 60 };
+    let seeds: Vec<u64> = if thorough { (0..6).map(|k| rep.seed + k).collect() } else { vec![rep.seed, rep.seed + 1] };
+    let specs = large_specs(iters);
+    let mut part = Part::new(part_name);
+    part.bound("template_instances", specs.len() as u64).bound("iterations", iters as u64).bound("seeds", seeds.len() as u64);
+    part.caps_hit.push("large instances are single runs per seed (no exhaustive deviation of the generator stream): a ramp along the size axis".to_string());
+    let mut jobs: Vec<(usize, u64, bool)> = vec![];
+    for i in 0..specs.len() {
+        for s in &seeds {
+            jobs.push((i, *s, false));
+            if (flags.c05 || flags.c06 || flags.c16) && *s == seeds[0] {
+                jobs.push((i, *s, true));
+            }
+        }
+    }
+    let res: Vec<(usize, u64, bool, RunOutcome)> = jobs
+        .par_iter()
+        .map(|(i, seed, par)| {
+            // (C16: a pool with more threads than any of the populations has individuals)
+            let ev = if *par { EvKind::Parallel(if flags.c16 { 72 } else { 4 }) } else { EvKind::Sequential };
+            (*i, *seed, *par, specs[*i].run_with(flags, &RunOpts { ev, rng: RngKind::Real(*seed), cloned: false }))
+        })
+        .collect();
+    for (i, seed, par, o) in res {
+        part.traces += 1;
+        part.states += 1;
+        part.transitions += o.steps;
+        part.outcome(format!("{}:{}", specs[i].template(), if o.result.is_ok() { "ok" } else { "err" }));
+        for (sig, d) in &o.violations {
+            part.violate(sig.clone(), d.clone(), json!({"large": specs[i].name(), "seed": seed, "parallel": par, "iters": iters, "flags": flags_json(flags)}));
+        }
+    }
+    part.sample(json!({"template": "real_ga", "population": 33, "dimension": 10, "iterations": iters}));
+    rep.push(part);
+}
+
 pub fn flags_json(f: Flags) -> Value {
     json!([f.c05, f.c06, f.c07, f.c16])
 }
 
 pub fn replay(case: &Value) -> Result<Vec<(String, String)>, String> {
+    if let Some(name) = case["large"].as_str() {
+        let fl = case["flags"].as_array().ok_or("no flags")?;
+        let flags = Flags { c05: fl[0].as_bool().unwrap(), c06: fl[1].as_bool().unwrap(), c07: fl[2].as_bool().unwrap(), c16: fl[3].as_bool().unwrap() };
+        let specs = large_specs(case["iters"].as_u64().unwrap_or(60) as u32);
+        let spec = specs.iter().find(|s| s.name() == name).ok_or("spec not found")?;
+        let ev = if case["parallel"].as_bool() == Some(true) { EvKind::Parallel(if flags.c16 { 72 } else { 4 }) } else { EvKind::Sequential };
+        return Ok(spec.run_with(flags, &RunOpts { ev, rng: RngKind::Real(case["seed"].as_u64().unwrap_or(0)), cloned: false }).violations);
+    }
     let name = case["spec"].as_str().ok_or("no spec")?;
     let seed = case["seed"].as_u64().unwrap_or(0);
     let fl = case["flags"].as_array().ok_or("no flags")?;
